@@ -18,7 +18,7 @@ func init() {
 		Assumptions: []string{"field kinds are representatives of wire classes, not every leaf"},
 		Work:        c03Work,
 		Post: func(a *mc.Agg) []string {
-			return needDims(a, "removed:1", "removed:2", "reordered", "added", "nest:top", "nest:field", "nest:elem", "nest:mapval", "nest:ptr", "highest-index-first", "time-payload", "size-sweep")
+			return needDims(a, "removed:1", "removed:2", "reordered", "added", "nest:top", "nest:field", "nest:elem", "nest:mapval", "nest:ptr", "highest-index-first", "time-payload", "size-sweep", "emptied-element")
 		},
 	})
 }
@@ -64,6 +64,9 @@ func c03Work(c *mc.Ctx) {
 		c03TimePayload(c, kinds)
 	}
 	c03SizeSweep(c)
+	if c.Owns(1) {
+		c03EmptiedElement(c)
+	}
 	var tuple []int
 	var rec func()
 	rec = func() {
@@ -573,6 +576,105 @@ func c03SizeSweep(c *mc.Ctx) {
 						return
 					}
 					if !check("elem", data, so.Elems[0], nil) || !check("elem", data, so.Elems[1], nil) {
+						return
+					}
+					c.Outcome("ok")
+				})
+			}
+		}
+	}
+}
+
+// c03EmptiedElement: EVERY field of an element type is removed, so that in S' the element is the
+// zero-sized struct{} while the data still carries the old fields in every entry - inside a slice,
+// a slice of pointers, a map value, a pointer and a nested field, each followed by known fields.
+type c03OldEl struct {
+	A int    `plenc:"1"`
+	B string `plenc:"2"`
+	C []int  `plenc:"3"`
+}
+type c03OldHolder struct {
+	L     []c03OldEl          `plenc:"1"`
+	M     map[string]c03OldEl `plenc:"2"`
+	P     *c03OldEl           `plenc:"3"`
+	LP    []*c03OldEl         `plenc:"4"`
+	N     c03OldEl            `plenc:"5"`
+	LR    []c03OldEl          `plenc:"6,proto"`
+	After int                 `plenc:"7"`
+	End   string              `plenc:"60"`
+}
+type c03NewHolder struct {
+	L     []struct{}          `plenc:"1"`
+	M     map[string]struct{} `plenc:"2"`
+	P     *struct{}           `plenc:"3"`
+	LP    []*struct{}         `plenc:"4"`
+	N     struct{}            `plenc:"5"`
+	LR    []struct{}          `plenc:"6,proto"`
+	After int                 `plenc:"7"`
+	End   string              `plenc:"60"`
+}
+
+func c03EmptiedElement(c *mc.Ctx) {
+	if !c.Begin(`{"set":"emptied-element"}`) {
+		return
+	}
+	c.AddEvals(-1)
+	c.Dim("emptied-element")
+	els := []c03OldEl{{}, {A: 1}, {B: "b"}, {A: -5, B: strings.Repeat("x", 130), C: []int{1, 2, 300}}}
+	// every subset of the six positions populated, with 1..3 elements drawn from els
+	for mask := 0; mask < 64; mask++ {
+		for n := 1; n <= 3; n++ {
+			for first := range els {
+				c.AddEvals(1)
+				c.Count("states", 1)
+				c.AddNonTrivial(1)
+				sig := "emptied-element|"
+				c.Guard(sig, func() {
+					pick := func(i int) c03OldEl { return els[(first+i)%len(els)] }
+					old := c03OldHolder{After: 7, End: "END"}
+					for i := 0; i < n; i++ {
+						e := pick(i)
+						if mask&1 != 0 {
+							old.L = append(old.L, e)
+						}
+						if mask&2 != 0 {
+							if old.M == nil {
+								old.M = map[string]c03OldEl{}
+							}
+							old.M[fmt.Sprint("k", i)] = e
+						}
+						if mask&8 != 0 {
+							ec := e
+							old.LP = append(old.LP, &ec)
+						}
+						if mask&32 != 0 {
+							old.LR = append(old.LR, e)
+						}
+					}
+					if mask&4 != 0 {
+						e := pick(0)
+						old.P = &e
+					}
+					if mask&16 != 0 {
+						old.N = pick(0)
+					}
+					p := NewPlenc(ref.Cfg{})
+					data, err := p.Marshal(nil, &old)
+					if err != nil {
+						c.Violation(sig+"marshal-error", err.Error())
+						return
+					}
+					got := c03NewHolder{After: -1, End: "stale"}
+					err = p.Unmarshal(data, &got)
+					c.Ops(2)
+					where := fmt.Sprintf("positions %06b, %d elements starting at #%d", mask, n, first)
+					if err != nil {
+						c.Violation(sig+"decode-error", where+": "+err.Error()+" data="+hx(data))
+						return
+					}
+					if got.After != 7 || got.End != "END" || len(got.L) != len(old.L) || len(got.M) != len(old.M) || len(got.LP) != len(old.LP) || len(got.LR) != len(old.LR) || (got.P == nil) != (old.P == nil) {
+						c.Violation(sig+"fields-after-the-emptied-elements-differ", fmt.Sprintf("%s: After=%d End=%q lengths %d/%d/%d/%d (want %d/%d/%d/%d) data=%s", where, got.After, got.End,
+							len(got.L), len(got.M), len(got.LP), len(got.LR), len(old.L), len(old.M), len(old.LP), len(old.LR), hx(data)))
 						return
 					}
 					c.Outcome("ok")
